@@ -98,6 +98,8 @@ func mergeErrChan(ctx context.Context, channels ...<-chan error) <-chan error {
 		for {
 			select {
 			case <-ctx.Done():
+				// errors that were reported before the cancel must not be lost
+				flushErrors(c, out)
 				return
 			case e, ok := <-c:
 				if !ok {
@@ -240,9 +242,34 @@ func (e *GenericEngine) worker(ctx context.Context, wg *sync.WaitGroup,
 }
 
 func writeError(ctx context.Context, out chan<- error, err error) {
+	// never drop an error while there is room for it
+	select {
+	case out <- err:
+		return
+	default:
+	}
 	select {
 	case <-ctx.Done():
 		return
 	case out <- err:
+	}
+}
+
+// flushErrors forwards the errors already waiting in c without blocking
+func flushErrors(c <-chan error, out chan<- error) {
+	for {
+		select {
+		case e, ok := <-c:
+			if !ok {
+				return
+			}
+			select {
+			case out <- e:
+			default:
+				return
+			}
+		default:
+			return
+		}
 	}
 }
